@@ -174,7 +174,7 @@ def correspond_robust(run, group, module, terms, cases, shard=250, per_call=8, r
 
 def main(run):
     import numpy
-    from deap import creator, tools
+    from deap import base, creator, tools
     from deap.tools import crossover as cxmod, mutation as mutmod
 
     run.rule = ("exhaustive: every draw combination (cut points, per-locus swap masks, swap indices, sample pairs, "
@@ -215,17 +215,31 @@ def main(run):
         return getattr(creator, name)
 
     LI = mkclass("C09List", list)
-    AI = mkclass("C09Array", array.array, typecode="q")
     NI = mkclass("C09Numpy", numpy.ndarray)
     ESL = mkclass("C09ESList", list, strategy=None)
     ESA = mkclass("C09ESArray", array.array, typecode="q", strategy=None)
+    ARR = {tc: mkclass("C09Array_" + tc, array.array, typecode=tc) for tc in "qdfbB"}
+    # gene domains: how the integer gene values handed to a case are represented in the container
+    #   int : list of int / array('q') / numpy int64          huge ints are just large values of this domain
+    #   float: list of float (0 -> -0.0 in the second parent) / array('d') / numpy float64
+    #   f32 : list of float / array('f') / numpy float32      i8: list of int / array('b') / numpy int8
+    #   bool: list of bool / array('B') / numpy bool_
+    DOM_TC = {"int": "q", "float": "d", "f32": "f", "i8": "b", "bool": "B"}
+    DOM_NP = {"int": numpy.int64, "float": numpy.float64, "f32": numpy.float32, "i8": numpy.int8, "bool": numpy.bool_}
 
-    def mk(kind, data):
+    def mk(kind, data, dom="int", negzero=False):
+        data = list(data)
         if kind == "list":
+            if dom in ("float", "f32"):
+                return LI([(-0.0 if (negzero and x == 0) else float(x)) for x in data])
+            if dom == "bool":
+                return LI([bool(x) for x in data])
             return LI(data)
         if kind == "array":
-            return AI(data)
-        return NI(numpy.array(list(data), dtype=numpy.int64))
+            if dom in ("float", "f32"):
+                data = [(-0.0 if (negzero and x == 0) else float(x)) for x in data]
+            return ARR[DOM_TC[dom]](data)
+        return NI(numpy.array(data, dtype=DOM_NP[dom]))
 
     def mkes(kind, genes, strat):
         if kind == "list":
@@ -236,8 +250,17 @@ def main(run):
             ind.strategy = array.array("q", strat)
         return ind
 
+    def key(x):
+        """type-exact, sign-of-zero-exact identity of a gene value"""
+        return (type(x).__name__, repr(x))
+
+    def keys(seq):
+        return [key(x) for x in seq]
+
     terms, cases = [], []
     counters = Counter()
+    route_counter = [0]
+    toolbox = base.Toolbox()                 # ONE toolbox object serves every toolbox-route call of the run
 
     def add(term, case, nontrivial):
         terms.append(term)
@@ -245,15 +268,30 @@ def main(run):
         counters[case["op"]] += 1
         run.note_case(case, nontrivial, sample=case if len(cases) % 997 == 1 else None)
 
-    def call(fn, mod, inds, extra, script, seed):
+    def call(fn, mod, inds, extra, script, seed, argnames=None, route=None):
+        """route: 'pos' positional call, 'kw' every argument by keyword, 'toolbox' through an alias registered
+        (and re-registered, with the extra arguments frozen) on the shared Toolbox."""
         import warnings
         proxy = DrawProxy(script, seed)
+        if route is None:
+            route_counter[0] += 1
+            route = ("pos", "pos", "kw", "toolbox")[route_counter[0] % 4]
+        if argnames is None:
+            route = "pos"
         old = mod.random
         mod.random = proxy
         try:
             with warnings.catch_warnings():
                 warnings.simplefilter("ignore")          # the deprecated aliases warn
-                status, r = guarded(fn, *(list(inds) + list(extra)))
+                if route == "kw":
+                    kw = dict(zip(argnames, list(inds) + list(extra)))
+                    status, r = guarded(fn, **kw)
+                elif route == "toolbox":
+                    kw = dict(zip(argnames[len(inds):], extra))
+                    toolbox.register("c09op", fn, **kw)
+                    status, r = guarded(toolbox.c09op, *inds)
+                else:
+                    status, r = guarded(fn, *(list(inds) + list(extra)))
         finally:
             mod.random = old
         idmap = {}
@@ -266,7 +304,7 @@ def main(run):
                     ids.append(idmap.setdefault(id(x), len(idmap)))
             else:
                 ids = [99]
-        return status, r, proxy.log, ids
+        return status, r, proxy.log, ids, route
 
     def viol(what, case, observed=None):
         run.oracle_violation(what, case, observed=observed)
@@ -276,46 +314,71 @@ def main(run):
             return
         if not isinstance(r, tuple) or len(r) != len(inds) or any(a is not b for a, b in zip(r, inds)):
             viol("operator does not return the very objects it was given", case)
+        for x in inds:
+            for y in inds:
+                if x is not y and isinstance(x, numpy.ndarray) and numpy.shares_memory(x, y):
+                    viol("the two individuals share memory after the call", case)
+
+    def gene_identity_oracle(case, kind, before_objs, after_objs):
+        """list-backed individuals hold references: the operators must move the parents' gene OBJECTS"""
+        if kind != "list":
+            return
+        c = Counter(id(x) for x in before_objs)
+        d = Counter(id(x) for x in after_objs)
+        if c != d:
+            viol("children do not hold exactly the parents' gene objects (a gene was copied, rebuilt or lost)", case)
+
+    CX_ARGS = ["ind1", "ind2", "indpb"]
 
     # ------------------------------------------------------------------ two-parent gene crossovers
-    def cx_case(op, kind, p1, p2, script=None, seed=0, indpb=None, valid=True, alias=None):
+    def cx_case(op, kind, p1=None, p2=None, script=None, seed=0, indpb=None, valid=True, alias=None,
+                dom="int", objs=None, route=None):
         fn = getattr(tools, alias or op)
-        a, b = mk(kind, p1), mk(kind, p2)
+        if objs is None:
+            a, b = mk(kind, p1, dom), mk(kind, p2, dom, negzero=True)
+        else:
+            a, b = objs
+        ob1, ob2 = list(a), list(b)                      # the gene objects before the call
+        p1, p2 = ints(ob1), ints(ob2)
+        kb1, kb2 = keys(ob1), keys(ob2)
         extra = [] if indpb is None else [indpb]
-        status, r, log, ids = call(fn, cxmod, [a, b], extra, script, seed)
-        c1, c2 = ints(a), ints(b)
-        case = {"op": alias or op, "kind": kind, "p1": p1, "p2": p2, "indpb": indpb, "draws": log,
-                "observed": [c1, c2] if status == "ok" else r}
+        status, r, log, ids, route = call(fn, cxmod, [a, b], extra, script, seed, CX_ARGS[:2 + len(extra)], route)
+        oa1, oa2 = list(a), list(b)
+        c1, c2 = ints(oa1), ints(oa2)
+        ka1, ka2 = keys(oa1), keys(oa2)
+        case = {"op": alias or op, "kind": kind, "dom": dom, "route": route, "p1": p1, "p2": p2, "indpb": indpb,
+                "draws": log, "observed": [c1, c2] if status == "ok" else r}
         size = min(len(p1), len(p2))
         if valid:
             if status != "ok":
                 viol("%s raised %s on valid input" % (op, r), case)
             else:
                 identity_oracle(case, status, r, [a, b])
-                if any(type(x) is not type(y) for x, y in zip(list(a) + list(b), list(mk(kind, p1)) + list(mk(kind, p2)))):
-                    viol("gene types changed", case)
+                gene_identity_oracle(case, kind, ob1 + ob2, oa1 + oa2)
                 if op in ("cxOnePoint", "cxTwoPoint", "cxUniform", "cxMessyOnePoint"):
-                    if ms(c1, c2) != ms(p1, p2):
-                        viol("combined multiset of genes changed", case, [c1, c2])
+                    if ms(ka1, ka2) != ms(kb1, kb2):
+                        viol("combined multiset of genes changed (type- and sign-exact)", case, [ka1, ka2])
                 if op in ("cxOnePoint", "cxTwoPoint", "cxUniform"):
                     for i in range(size):
-                        if i < len(c1) and i < len(c2) and sorted([c1[i], c2[i]]) != sorted([p1[i], p2[i]]):
-                            viol("locus %d of the children does not hold the two parental genes of that locus" % i, case, [c1, c2])
+                        if i < len(ka1) and i < len(ka2) and sorted([ka1[i], ka2[i]]) != sorted([kb1[i], kb2[i]]):
+                            viol("locus %d of the children does not hold the two parental genes of that locus" % i, case, [ka1, ka2])
                             break
                 if op in ("cxTwoPoint", "cxUniform"):
-                    if len(c1) != len(p1) or len(c2) != len(p2):
+                    if len(ka1) != len(kb1) or len(ka2) != len(kb2):
                         viol("lengths not kept", case, [c1, c2])
-                    elif c1[size:] != p1[size:] or c2[size:] != p2[size:]:
-                        viol("genes beyond the shorter length changed", case, [c1, c2])
+                    elif ka1[size:] != kb1[size:] or ka2[size:] != kb2[size:]:
+                        viol("genes beyond the shorter length changed", case, [ka1, ka2])
                 if op == "cxOnePoint":
-                    if len(c1) != len(p2) or len(c2) != len(p1):
+                    if len(ka1) != len(kb2) or len(ka2) != len(kb1):
                         viol("lengths not exchanged", case, [c1, c2])
-                    elif c1[size:] != p2[size:] or c2[size:] != p1[size:]:
-                        viol("tails beyond the shorter length not exchanged", case, [c1, c2])
+                    elif ka1[size:] != kb2[size:] or ka2[size:] != kb1[size:]:
+                        viol("tails beyond the shorter length not exchanged", case, [ka1, ka2])
                 if op in ("cxPartialyMatched", "cxUniformPartialyMatched", "cxOrdered"):
                     n = len(p1)
                     if sorted(c1) != list(range(n)) or sorted(c2) != list(range(n)):
                         viol("child is not a permutation of 0..n-1", case, [c1, c2])
+                    elif ms(ka1) != ms(kb1) or ms(ka2) != ms(kb2):
+                        viol("child is not a permutation of the same elements (gene type changed)", case, [ka1, ka2])
         obs = "(Ok (%s, %s))" % (czl(c1), czl(c2)) if status == "ok" else cexn(r)
         ctor = {"cxOnePoint": "COnePoint", "cxTwoPoint": "CTwoPoint", "cxUniform": "CUniform",
                 "cxMessyOnePoint": "CMessy", "cxPartialyMatched": "CPMX",
@@ -324,18 +387,25 @@ def main(run):
         add("%s %s %s%s %s %s %s" % (ctor, czl(p1), czl(p2), pb, cdraws(log), obs, cnatl(ids)), case,
             status != "ok" or c1 != p1 or c2 != p2)
 
-    def es_case(kind, g1, s1, g2, s2, script=None, seed=0, valid=True, alias=None):
-        a, b = mkes(kind, g1, s1), mkes(kind, g2, s2)
+    def es_case(kind, g1=None, s1=None, g2=None, s2=None, script=None, seed=0, valid=True, alias=None, objs=None, route=None):
+        if objs is None:
+            a, b = mkes(kind, g1, s1), mkes(kind, g2, s2)
+        else:
+            a, b = objs
+        g1, s1, g2, s2 = ints(a), ints(a.strategy), ints(b), ints(b.strategy)
+        ob = list(a) + list(b) + list(a.strategy) + list(b.strategy)
         sa, sb = a.strategy, b.strategy
-        status, r, log, ids = call(getattr(tools, alias or "cxESTwoPoint"), cxmod, [a, b], [], script, seed)
+        status, r, log, ids, route = call(getattr(tools, alias or "cxESTwoPoint"), cxmod, [a, b], [], script, seed,
+                                          CX_ARGS[:2], route)
         c1, c2, t1, t2 = ints(a), ints(b), ints(a.strategy), ints(b.strategy)
-        case = {"op": "cxESTwoPoint", "kind": kind, "g1": g1, "s1": s1, "g2": g2, "s2": s2, "draws": log,
+        case = {"op": alias or "cxESTwoPoint", "kind": kind, "route": route, "g1": g1, "s1": s1, "g2": g2, "s2": s2, "draws": log,
                 "observed": [c1, t1, c2, t2] if status == "ok" else r}
         if valid:
             if status != "ok":
                 viol("cxESTwoPoint raised %s on valid input" % r, case)
             else:
                 identity_oracle(case, status, r, [a, b])
+                gene_identity_oracle(case, kind, ob, list(a) + list(b) + list(a.strategy) + list(b.strategy))
                 if a.strategy is not sa or b.strategy is not sb:
                     viol("strategy objects replaced", case)
                 if [len(c1), len(t1), len(c2), len(t2)] != [len(g1), len(s1), len(g2), len(s2)]:
@@ -357,23 +427,29 @@ def main(run):
             status != "ok" or c1 != g1)
 
     # ------------------------------------------------------------------ mutations
-    def mut_case(op, kind, p, script=None, seed=0, indpb=None, low=None, up=None, valid=True, genes=None):
+    def mut_case(op, kind, p=None, script=None, seed=0, indpb=None, low=None, up=None, valid=True, genes=None,
+                 dom="int", obj=None, route=None):
         fn = getattr(tools, op)
-        if genes is not None:           # mutFlipBit with typed genes (list individuals)
+        if obj is not None:
+            a = obj
+        elif genes is not None:           # typed genes given directly (list individuals)
             a = LI(genes)
         else:
-            a = mk(kind, p)
+            a = mk(kind, p, dom)
         before = list(a)
-        extra = []
+        extra, names = [], ["individual"]
         if op == "mutUniformInt":
-            extra = [low, up, indpb]
+            extra, names = [low, up, indpb], ["individual", "low", "up", "indpb"]
         elif indpb is not None:
-            extra = [indpb]
-        status, r, log, ids = call(fn, mutmod, [a], extra, script, seed)
+            extra, names = [indpb], ["individual", "indpb"]
+        bounds_before = (repr(low), repr(up))
+        status, r, log, ids, route = call(fn, mutmod, [a], extra, script, seed, names, route)
         after = list(a)
-        case = {"op": op, "kind": kind, "p": [repr(x) for x in before], "indpb": indpb,
+        case = {"op": op, "kind": kind, "dom": dom, "route": route, "p": [repr(x) for x in before], "indpb": indpb,
                 "low": list(low) if is_seq(low) else low, "up": list(up) if is_seq(up) else up,
                 "draws": log, "observed": [repr(x) for x in after] if status == "ok" else r}
+        if (repr(low), repr(up)) != bounds_before:
+            viol("the bound arguments were modified", case)
         if valid:
             if status != "ok":
                 viol("%s raised %s on valid input" % (op, r), case)
@@ -382,16 +458,15 @@ def main(run):
                 if len(after) != len(before):
                     viol("length changed", case)
                 elif op in ("mutShuffleIndexes", "mutInversion"):
-                    if ms(ints(after)) != ms(ints(before)):
-                        viol("not a permutation of the same elements", case)
-                    if any(type(x) is not type(y) for x, y in zip(after, before)):
-                        viol("gene types changed", case)
+                    if ms(keys(after)) != ms(keys(before)):
+                        viol("not a permutation of the same elements (type- and sign-exact)", case)
+                    gene_identity_oracle(case, kind if genes is None else "list", before, after)
                 elif op == "mutFlipBit":
                     for x, y in zip(before, after):
                         if type(x) is not type(y):
                             viol("flipped gene changed its type (%s -> %s)" % (type(x).__name__, type(y).__name__), case)
                             break
-                        if not (y == x or y == (not x)) or (x in (0, 1) and y not in (x, 1 - x)):
+                        if not (key(y) == key(x) or y == (not x)) or (x in (0, 1) and y not in (x, 1 - x)):
                             viol("gene is neither unchanged nor complemented", case)
                             break
                 elif op == "mutUniformInt":
@@ -399,10 +474,12 @@ def main(run):
                     lo = list(low)[:n] if is_seq(low) else [low] * n
                     hi = list(up)[:n] if is_seq(up) else [up] * n
                     for x, y, l_, h_ in zip(before, after, lo, hi):
-                        if type(y) is not type(x) and not isinstance(y, int):
-                            viol("new gene is not an integer", case)
+                        if key(y) == key(x):
+                            continue
+                        if type(y) is not type(x) and type(y) is not int:
+                            viol("new gene is not an integer (%s)" % type(y).__name__, case)
                             break
-                        if not (y == x or l_ <= y <= h_) or int(y) != y:
+                        if not (l_ <= y <= h_) or int(y) != y:
                             viol("mutated gene outside [low, up]", case)
                             break
         if op == "mutFlipBit":
@@ -652,6 +729,169 @@ def main(run):
                     low = low[0]
                     up = [max(x, low) for x in up]
             mut_case(op, rng.choice(kinds_elem), p, seed=seed, indpb=rand_pb(), low=low, up=up)
+
+    # ================================================================== hardening round (HARDENING.md)
+    EQ = 0.5                                 # a draw equal to the threshold indpb = 0.5 (`<` must not select it)
+    TOP = 1.0 - 2.0 ** -53                   # the largest value random() can return
+    perm4, perm4b = [2, 0, 3, 1], [3, 1, 0, 2]
+
+    def indpb_ops(kind, pb, script=None, seedbase=0):
+        """every operator that takes indpb, on this container kind"""
+        sd = lambda: rng.randrange(10 ** 9) + seedbase
+        cx_case("cxUniform", kind, genes(4, 10), genes(3, 20), script=script, seed=sd(), indpb=pb)
+        cx_case("cxUniform", kind, genes(3, 10), genes(3, 20), script=script, seed=sd(), indpb=pb)
+        cx_case("cxUniformPartialyMatched", kind, perm4, perm4b, script=script, seed=sd(), indpb=pb)
+        mut_case("mutShuffleIndexes", kind, perm4, script=script, seed=sd(), indpb=pb)
+        mut_case("mutFlipBit", kind, [0, 1, 1, 0], script=script, seed=sd(), indpb=pb)
+        mut_case("mutUniformInt", kind, [7, 7, 7, 7], script=script, seed=sd(), indpb=pb, low=-3, up=[5, 6, 7, 8])
+
+    # ---- class 5: boundaries.  indpb = 0 and 1 on every container kind; draws equal to the threshold
+    for kind in kinds_elem:
+        for pb in (0.0, 1.0):
+            indpb_ops(kind, pb)
+        indpb_ops(kind, 0.5, script=[EQ] * 8)            # u == indpb: nothing may be selected
+        indpb_ops(kind, 0.0, script=[0.0] * 8)           # u == indpb == 0
+        indpb_ops(kind, 1.0, script=[TOP, 0.0, TOP, 0.0, TOP, 0.0, TOP, 0.0])
+        indpb_ops(kind, TOP, script=[TOP] * 8)           # u == indpb just below 1
+    # mutUniformInt: both branches of both isinstance tests, equal bounds, all-negative and huge ranges,
+    # draws at both ends of the range
+    H = 2 ** 62
+    for kind in kinds_elem:
+        for lo_seq in (False, True):
+            for up_seq in (False, True):
+                for lo_v, up_v in [(-5, -1), (-9, -9), (0, 0), (-H, -H + 3), (H - 3, H - 1), (-1, 0)]:
+                    for end in (0, 1):
+                        low = [lo_v] * 3 if lo_seq else lo_v
+                        up = [up_v] * 3 if up_seq else up_v
+                        v = (lo_v, up_v)[end]
+                        mut_case("mutUniformInt", kind, [1, 2, 3], script=[LO, v, HI, LO, v], indpb=0.5, low=low, up=up)
+    mut_case("mutUniformInt", "list", [1, 2, 3], seed=5, indpb=1.0, low=numpy.int64(-4), up=numpy.int64(-2))
+    same = [4, 4, 4]
+    mut_case("mutUniformInt", "list", [1, 2, 3], seed=5, indpb=1.0, low=same, up=same)      # one object as both bounds
+    # first / last index pairs of mutInversion and extreme cut points on the smallest sizes, every kind
+    for kind in kinds_slice:
+        for n in (2, 3):
+            for i1, i2 in [(0, 0), (0, n - 1), (n - 1, 0), (n - 1, n - 1)]:
+                mut_case("mutInversion", kind, genes(n, 0), script=[i1, i2])
+            cx_case("cxOnePoint", kind, genes(n, 10), genes(2, 20), script=[1])
+            cx_case("cxTwoPoint", kind, genes(n, 10), genes(2, 20), script=[2, 1])
+            cx_case("cxTwoPoint", kind, genes(2, 10), genes(n, 20), script=[1, 1])
+
+    # ---- class 3: value domains (type-exact oracle): floats incl. -0.0, float32, int8, bools, ints > 2**53
+    def big(n, base_, kind):
+        m = 2 ** 70 if kind == "list" else 2 ** 55
+        return [(base_ + i) * m + 1 for i in range(n)]
+
+    for dom in ("float", "f32", "i8", "bool"):
+        for kind in kinds_elem:
+            vals1, vals2 = ([0, 1, 1, 0, 1], [1, 0, 0, 0]) if dom == "bool" else ([0, 1, 2, 3, 4], [5, 0, 6, 0])
+            seed = rng.randrange(10 ** 9)
+            if kind != "numpy":
+                cx_case("cxOnePoint", kind, vals1, vals2, seed=seed, dom=dom)
+                cx_case("cxTwoPoint", kind, vals1, vals2, seed=seed, dom=dom)
+                cx_case("cxMessyOnePoint", kind, vals1, vals2, seed=seed, dom=dom)
+                mut_case("mutInversion", kind, vals1, seed=seed, dom=dom)
+            cx_case("cxUniform", kind, vals1, vals2, seed=seed, indpb=0.5, dom=dom)
+            cx_case("cxUniform", kind, vals1, vals2, seed=seed, indpb=1.0, dom=dom)
+            mut_case("mutShuffleIndexes", kind, vals1, seed=seed, indpb=0.6, dom=dom)
+            mut_case("mutFlipBit", kind, [0, 1, 1, 0], seed=seed, indpb=0.7, dom=dom)
+            mut_case("mutFlipBit", kind, [0, 1, 1, 0], seed=seed, indpb=1.0, dom=dom)
+            if dom != "bool":
+                mut_case("mutUniformInt", kind, [0, 1, 2, 3], seed=seed, indpb=0.8, low=-7, up=[9, 9, 0, -7], dom=dom)
+    for kind in kinds_elem:
+        seed = rng.randrange(10 ** 9)
+        if kind != "numpy":
+            cx_case("cxOnePoint", kind, big(4, 1, kind), big(3, -9, kind), seed=seed)
+            cx_case("cxTwoPoint", kind, big(4, 1, kind), big(3, -9, kind), seed=seed)
+            cx_case("cxMessyOnePoint", kind, big(4, 1, kind), big(3, -9, kind), seed=seed)
+            mut_case("mutInversion", kind, big(5, 1, kind), seed=seed)
+        cx_case("cxUniform", kind, big(4, 1, kind), big(3, -9, kind), seed=seed, indpb=0.5)
+        mut_case("mutShuffleIndexes", kind, big(4, -2, kind), seed=seed, indpb=0.7)
+        mut_case("mutUniformInt", kind, big(3, 1, kind), seed=seed, indpb=0.7, low=-H, up=H)
+        # permutation operators on small-integer dtypes (genes index Python lists)
+        for op in ("cxPartialyMatched", "cxOrdered"):
+            cx_case(op, kind, perm4, perm4b, seed=seed, dom="i8")
+        cx_case("cxUniformPartialyMatched", kind, perm4, perm4b, seed=seed, indpb=0.5, dom="i8")
+    # duplicates: one gene object many times in a list individual (identity multiset must still be kept)
+    shared = 1000003
+    for op in ("cxOnePoint", "cxTwoPoint", "cxMessyOnePoint"):
+        cx_case(op, "list", objs=(LI([shared] * 4), LI([shared, 7, shared])), seed=rng.randrange(10 ** 9))
+    cx_case("cxUniform", "list", objs=(LI([shared] * 4), LI([shared, 7, shared])), seed=3, indpb=0.5)
+
+    # ---- classes 1 and 2: the SAME objects through successive calls, two clients interleaved, returned
+    # objects fed back in, one bound object serving two individuals; every step judged on its own
+    def gen_seq(kind, steps):
+        A = [mk(kind, genes(5, 10)), mk(kind, genes(5, 20))]
+        B = [mk(kind, genes(3, 30)), mk(kind, genes(7, 40))]
+        ops = ["cxTwoPoint", "cxUniform", "cxUniform"] if kind == "numpy" else \
+              ["cxOnePoint", "cxTwoPoint", "cxUniform", "cxMessyOnePoint"]
+        for t in range(steps):
+            pair = A if t % 2 == 0 else B
+            if min(len(pair[0]), len(pair[1])) < 2:
+                continue
+            op = rng.choice(ops if kind != "numpy" else ["cxUniform"])
+            if rng.random() < 0.25:
+                pair.reverse()                            # the same objects in the other positions
+            cx_case(op, kind, objs=tuple(pair), seed=rng.randrange(10 ** 9),
+                    indpb=rng.choice([0.5, 1.0, 0.3]) if op == "cxUniform" else None)
+            if rng.random() < 0.5:
+                which = rng.randrange(2)
+                mop = rng.choice(["mutShuffleIndexes", "mutFlipBit", "mutUniformInt"] +
+                                 ([] if kind == "numpy" else ["mutInversion"]))
+                if len(pair[which]) >= 2:
+                    if mop == "mutUniformInt":
+                        mut_case(mop, kind, obj=pair[which], seed=rng.randrange(10 ** 9), indpb=0.5, low=-2, up=50)
+                    elif mop == "mutInversion":
+                        mut_case(mop, kind, obj=pair[which], seed=rng.randrange(10 ** 9))
+                    else:
+                        mut_case(mop, kind, obj=pair[which], seed=rng.randrange(10 ** 9), indpb=0.5)
+
+    def perm_seq(kind, steps):
+        def fresh(n):
+            p = list(range(n))
+            rng.shuffle(p)
+            return mk(kind, p)
+        A = [fresh(5), fresh(5)]
+        B = [fresh(4), fresh(4)]
+        for t in range(steps):
+            pair = A if t % 2 == 0 else B
+            op = rng.choice(["cxPartialyMatched", "cxUniformPartialyMatched", "cxOrdered", "mut", "mut"])
+            if op == "mut":
+                mop = rng.choice(["mutShuffleIndexes", "mutInversion"] if kind != "numpy" else ["mutShuffleIndexes"])
+                mut_case(mop, kind, obj=pair[rng.randrange(2)], seed=rng.randrange(10 ** 9),
+                         indpb=0.5 if mop == "mutShuffleIndexes" else None)
+            else:
+                if rng.random() < 0.25:
+                    pair.reverse()
+                cx_case(op, kind, objs=tuple(pair), seed=rng.randrange(10 ** 9),
+                        indpb=rng.choice([0.5, 1.0]) if op == "cxUniformPartialyMatched" else None)
+
+    def es_seq(kind, steps):
+        A = (mkes(kind, genes(5, 10), genes(5, 110)), mkes(kind, genes(5, 20), genes(5, 120)))
+        B = (mkes(kind, genes(3, 30), genes(3, 130)), mkes(kind, genes(6, 40), genes(6, 140)))
+        for t in range(steps):
+            es_case(kind, objs=A if t % 2 == 0 else B, seed=rng.randrange(10 ** 9),
+                    alias="cxESTwoPoints" if t % 3 == 2 else None)
+
+    for rep in range(run.scale(2, 12)):
+        for kind in kinds_elem:
+            gen_seq(kind, 8)
+            perm_seq(kind, 8)
+        for kind in kinds_slice:
+            es_seq(kind, 6)
+    # one bounds object, two individuals, successive calls with different kinds of bounds on one individual
+    for kind in kinds_elem:
+        lows, ups = [-3, -2, -1, 0, 1], (0, 0, 5, 5, 9)
+        x, y = mk(kind, [9] * 5), mk(kind, [8] * 4)
+        for t in range(run.scale(4, 12)):
+            tgt = (x, y)[t % 2]
+            if t % 3 == 0:
+                mut_case("mutUniformInt", kind, obj=tgt, seed=rng.randrange(10 ** 9), indpb=0.6, low=lows, up=ups)
+            elif t % 3 == 1:
+                mut_case("mutUniformInt", kind, obj=tgt, seed=rng.randrange(10 ** 9), indpb=0.6, low=-1, up=ups)
+            else:
+                mut_case("mutUniformInt", kind, obj=tgt, seed=rng.randrange(10 ** 9), indpb=0.6, low=lows, up=4)
+            mut_case("mutFlipBit", kind, obj=tgt, seed=rng.randrange(10 ** 9), indpb=0.5)
 
     run.extra_cov["cases_per_operator"] = dict(counters)
     correspond_robust(run, "ops", "C09", terms, cases)
